@@ -120,6 +120,12 @@ M: List[Tuple[str, str, str, str, str]] = [
     ('c08-token-case-insensitive', 'C08', 'proxy/http/proxy/auth.py',
      "                    or parts[1] != self.flags.auth_code:",
      "                    or parts[1].lower() != self.flags.auth_code.lower():"),
+    ('c02-revert-upgrade-check-on-incomplete-parser', 'C02', 'proxy/http/proxy/server.py',
+     "                        self.pipeline_request.is_complete and \\\n                        self.pipeline_request.is_connection_upgrade:",
+     "                        self.pipeline_request.is_connection_upgrade:"),
+    ('c08-revert-upgrade-check-on-incomplete-parser', 'C08', 'proxy/http/proxy/server.py',
+     "                        self.pipeline_request.is_complete and \\\n                        self.pipeline_request.is_connection_upgrade:",
+     "                        self.pipeline_request.is_connection_upgrade:"),
     # ---- C14 ---------------------------------------------------------------
     ('c14-default-port-8080', 'C14', 'proxy/http/parser/parser.py',
      "                    if self._url.port is not None else DEFAULT_HTTP_PORT",
